@@ -88,6 +88,16 @@ func MaybeWorker() {
 		return
 	}
 	log.SetFlags(log.Llongfile)
+	// a worker that is busy (or spinning) in library code never looks at its stdin: leave when the parent is gone
+	parent := os.Getppid()
+	go func() {
+		for {
+			time.Sleep(500 * time.Millisecond)
+			if os.Getppid() != parent {
+				os.Exit(3)
+			}
+		}
+	}()
 	in := bufio.NewReaderSize(os.Stdin, 1<<17)
 	out := bufio.NewWriterSize(os.Stdout, 1<<16)
 	for {
@@ -266,10 +276,15 @@ type Pool struct {
 	w        *worker
 	Deadline time.Duration
 	Spawns   int
+	// hangs are expensive to shrink (every candidate costs a full deadline): confirmed timeouts are remembered by
+	// input, and after TimeoutBudget of them further hanging candidates are cut off after one second and not judged
+	TimeoutBudget   int
+	confirmed       map[string]Result
+	IgnoredTimeouts int
 }
 
 // NewPool creates the pool; the worker is started lazily.
-func NewPool() *Pool { return &Pool{Deadline: 4 * time.Second} }
+func NewPool() *Pool { return &Pool{Deadline: 4 * time.Second, TimeoutBudget: 3, confirmed: map[string]Result{}} }
 
 func (p *Pool) spawn() (*worker, error) {
 	cmd := exec.Command(os.Args[0], "-test.run", "^$")
@@ -433,11 +448,24 @@ func tailStr(s string, n int) string {
 func (p *Pool) Run(entry string, input []byte) (Result, error) {
 	p.mu.Lock()
 	defer p.mu.Unlock()
-	r, err := p.roundTrip(entry, input, 0, p.Deadline)
+	key := entry + "\x00" + string(input)
+	if c, ok := p.confirmed[key]; ok {
+		return c, nil
+	}
+	deadline := p.Deadline
+	if len(p.confirmed) >= p.TimeoutBudget {
+		deadline = time.Second
+	}
+	r, err := p.roundTrip(entry, input, 0, deadline)
 	if err != nil {
 		return r, err
 	}
 	if r.Outcome == Timeout {
+		if len(p.confirmed) >= p.TimeoutBudget {
+			// enough hangs have been established in this process: do not spend more time on further candidates
+			p.IgnoredTimeouts++
+			return Result{Outcome: Returned, Detail: "timeout not judged (budget of confirmed timeouts used up)"}, nil
+		}
 		r2, err := p.roundTrip(entry, input, 0, 6*p.Deadline)
 		if err != nil {
 			return r2, err
@@ -445,6 +473,8 @@ func (p *Pool) Run(entry string, input []byte) (Result, error) {
 		if r2.Outcome != Timeout {
 			r2.Detail = "(slow under load, not a timeout) " + r2.Detail
 			r = r2
+		} else {
+			p.confirmed[key] = r
 		}
 	}
 	if (r.Outcome == Returned || r.Outcome == Error) && r.Alloc > AllocBound(len(input)) {
